@@ -1,6 +1,7 @@
 (* C14 — Concurrent requests do not interfere with each other. *)
 From Coq Require Import List Arith.
-From Keto Require Import Conc.Interleave Engine.Engine Api.Transports Api.TransportsProofs.
+From Coq Require Import NArith ZArith Bool.
+From Keto Require Import Base.Bytes Store.Sql Engine.Ast Conc.Interleave Engine.Engine Engine.Frame Api.Transports Api.TransportsProofs.
 Import ListNotations.
 
 (* requests whose steps read the shared store and touch only their own state: under EVERY schedule request i is in
@@ -31,3 +32,29 @@ Theorem C14_shared_visited_refuted :
   let g := [(0, [1]); (1, [2])] in
   reach_private g 0 2 = true /\ reach_shared_second g 0 7 0 2 = false.
 Proof. exact shared_visited_interferes. Qed.
+
+(* the evaluation state of a check is private, on the engine model: started in ANY state other requests left behind
+   (their visited sets P on the heap, k storage operations counted, any flags) the check returns what it returns from
+   the empty state, changes its own part of the state in the same way, and leaves P exactly as it was; the fault plan
+   is indexed by the check's own operation count *)
+Theorem C14_check_state_is_private : forall cfg strict nid d maxWidth (F : nat -> bool) sub P k b1 b2 b3 gas ns obj rel depth skip,
+  match check_allowed cfg strict nid d maxWidth F sub gas ctx0 ns obj rel depth skip est0 with
+  | None => check_allowed cfg strict nid d maxWidth (F' F k) sub gas ctx0 ns obj rel depth skip (start_state P k b1 b2 b3) = None
+  | Some (r, t) =>
+    exists t', check_allowed cfg strict nid d maxWidth (F' F k) sub gas ctx0 ns obj rel depth skip (start_state P k b1 b2 b3) = Some (r, t') /\
+               heap t' = P ++ heap t /\ calls t' = k + calls t /\
+               cut t' = b1 || cut t /\ cut_neg t' = b2 || cut_neg t /\ revisit t' = b3 || revisit t
+  end.
+Proof. exact check_state_is_private. Qed.
+Theorem C14_other_requests_untouched : forall cfg strict nid d maxWidth (F : nat -> bool) sub P k b1 b2 b3 gas ns obj rel depth skip r t',
+  check_allowed cfg strict nid d maxWidth (F' F k) sub gas ctx0 ns obj rel depth skip (start_state P k b1 b2 b3) = Some (r, t') ->
+  firstn (length P) (heap t') = P.
+Proof. exact other_requests_visited_sets_untouched. Qed.
+(* a batch evaluated entry after entry on ONE shared evaluation state: every entry gets exactly the answer it gets alone *)
+Theorem C14_batch_entries_answer_as_alone : forall cfg strict nid d maxWidth gas qs s l u,
+  run_batch cfg strict nid d maxWidth gas qs s = Some (l, u) ->
+  Forall2 (fun q r => exists t, alone_q cfg strict nid d maxWidth gas q = Some (r, t)) qs l.
+Proof. exact batch_entries_answer_as_alone. Qed.
+Theorem C14_batch_runs_when_entries_run : forall cfg strict nid d maxWidth gas qs s,
+  Forall (fun q => alone_q cfg strict nid d maxWidth gas q <> None) qs -> run_batch cfg strict nid d maxWidth gas qs s <> None.
+Proof. exact batch_runs_when_entries_run. Qed.
